@@ -1,6 +1,7 @@
 package main
 
 import (
+	"errors"
 	"encoding/json"
 	"fmt"
 	"strings"
@@ -28,6 +29,42 @@ type c02Replay struct {
 	Parts   []string // payload parts: bound to P0.. (and to the ranged list L when RangeParts)
 	Range   bool     // parts are the elements of L
 	C, W    bool
+	Kind    string // how each part is handed to the template: "" plain string, or one of c02Kinds
+}
+
+// c02Kinds: Go values whose text (what fmt prints after the sanitizers' dereferencing) is the untrusted string.
+var c02Kinds = []string{"ptr", "ptrptr", "stringer", "stringer-ptr", "error", "named-string", "iface-in-struct-field"}
+
+type c02Stringer struct{ s string }
+
+func (v c02Stringer) String() string { return v.s }
+
+type c02PtrStringer struct{ s string }
+
+func (v *c02PtrStringer) String() string { return v.s }
+
+type c02Named string
+
+func c02Wrap(kind, s string) interface{} {
+	switch kind {
+	case "ptr":
+		return &s
+	case "ptrptr":
+		p := &s
+		return &p
+	case "stringer":
+		return c02Stringer{s}
+	case "stringer-ptr":
+		return &c02PtrStringer{s}
+	case "error":
+		return errors.New(s)
+	case "named-string":
+		return c02Named(s)
+	case "iface-in-struct-field":
+		var v interface{} = fmt.Stringer(c02Stringer{s})
+		return v
+	}
+	return s
 }
 
 const c02Marker = "zQz"
@@ -115,12 +152,12 @@ func c02Data(in c02Replay) tmplx.Data {
 	}
 	if in.Range {
 		for _, p := range in.Parts {
-			d.L = append(d.L, p)
+			d.L = append(d.L, c02Wrap(in.Kind, p))
 		}
 		return d
 	}
 	for k, p := range in.Parts {
-		d.Set(k, p)
+		d.Set(k, c02Wrap(in.Kind, p))
 	}
 	return d
 }
@@ -339,8 +376,10 @@ func checkC02(r *core.Run) {
 			return
 		}
 		firstExec := true
-		try := func(parts []string, c, w bool) {
-			in := c02Replay{Program: text, Parts: parts, Range: rng, C: c, W: w}
+		var tryKind func(parts []string, c, w bool, kind string)
+		try := func(parts []string, c, w bool) { tryKind(parts, c, w, "") }
+		tryKind = func(parts []string, c, w bool, kind string) {
+			in := c02Replay{Program: text, Parts: parts, Range: rng, C: c, W: w, Kind: kind}
 			d := c02Data(in)
 			if !rng {
 				for k := len(parts); k < nslots; k++ {
@@ -368,7 +407,11 @@ func checkC02(r *core.Run) {
 				if bad, _ := c02ReplayCase(in); !bad {
 					continue
 				}
-				r.Witness(f.clause, class, text+"\x00"+strings.Join(parts, "\x01"), fmt.Sprintf("program %s with parts %q (C=%v W=%v): output %s: %s", core.Q(text), parts, c, w, core.Q(res.Out), f.detail), in)
+				input, as := text+"\x00"+strings.Join(parts, "\x01"), ""
+				if kind != "" {
+					input, as = input+"\x02"+kind, " passed as "+kind
+				}
+				r.Witness(f.clause, class, input, fmt.Sprintf("program %s with parts %q%s (C=%v W=%v): output %s: %s", core.Q(text), parts, as, c, w, core.Q(res.Out), f.detail), in)
 			}
 		}
 		for _, c := range cs {
@@ -408,6 +451,11 @@ func checkC02(r *core.Run) {
 					switch nparts {
 					case 1:
 						try([]string{dz}, c, w)
+						if class == "" || strings.HasPrefix(class, "single-action") {
+							for _, kd := range c02Kinds {
+								tryKind([]string{dz}, c, w, kd)
+							}
+						}
 						// the static prefix may supply the beginning
 						for i := 1; i < len(dz) && i <= 10; i++ {
 							try([]string{dz[i:]}, c, w)
